@@ -122,6 +122,12 @@ theorem C19_removed_is_reported (a : Acc) (s : Nat) (r vkey : String) (v : Nat) 
   rw [hvx] at hy; cases hy
   exact (C19_gone_iff _ _ hi v r').mpr ⟨vx, hvx, hyk, hr, C19_removed_is_gone a s r vkey v x rm hi hx hk hrm hv⟩
 
+/-- The virtual id table is cleaned when a virtual session ends by any path, and a session that is closed
+without ever having owned its entry (a duplicate add the backend refused) leaves the entry of the live
+session alone — as the model does (`dropVirtual` removes the entry only if it points to the session).
+Regenerated on every run. -/
+theorem C19_facts : Generated.Hub.vtableClearedOnClose = true ∧ Generated.Hub.vtableDeleteGuarded = true := by decide
+
 private def demo : List Op :=
   [.connect 1, .connect 2, .hello 1 0 .internal "" false false, .hello 2 0 .client "bob" false false,
    .join 2 "room" "n2" (.ok none ""), .addVirtual 1 "room" "phone-7" "carol" none true,
